@@ -19,7 +19,8 @@ RULE = ("random removal-enabled source graphs (reciprocal pairs with disjoint/ov
 MIN = {"quick": {"conv:has_interaction(u,v,t)": 50000, "conv:source-unchanged": 3000, "conv:isolation": 3000, "conv:isolation(structure)": 3000},
        "thorough": {"conv:has_interaction(u,v,t)": 1000000, "conv:source-unchanged": 60000, "conv:isolation": 60000, "conv:isolation(structure)": 60000}}
 REQUIRED_CELLS = {t: ("conv:to_undirected", "conv:to_undirected(reciprocal)", "conv:to_directed",
-                      "src:reciprocal-overlapping", "src:reciprocal-disjoint", "src:self-loop", "src:isolated")
+                      "src:reciprocal-overlapping", "src:reciprocal-disjoint", "src:self-loop", "src:isolated",
+                      "form:positional-flag")
                   for t in ("quick", "thorough")}
 
 
@@ -207,7 +208,11 @@ def convert_all(ctx, dn, prog, directed, orderable, fam=None):
         if orderable:
             G, m = rebuild(ctx, dn, prog, directed)
             decorate(ctx, dn, G, m)
-            check_conv(ctx, dn, G, m, "to_undirected(reciprocal)", lambda: G.to_undirected(reciprocal=True),
+            # keyword and positional form of the flag alternate
+            pos = ctx.rng.random() < 0.4
+            ctx.cell("form:positional-flag" if pos else "form:keyword-flag")
+            check_conv(ctx, dn, G, m, "to_undirected(reciprocal)",
+                       (lambda: G.to_undirected(True)) if pos else (lambda: G.to_undirected(reciprocal=True)),
                        und_model(m, True))
     else:
         decorate(ctx, dn, G, m)
